@@ -4,7 +4,7 @@
    simple pattern (RstrDefs.spec_find) for every pattern, line and flag set.  The tie
    "spec_find = what regex.c answers" is checked on the real code by tools/props/c12.py. *)
 From Coq Require Import List NArith ZArith Bool.
-From NV Require Import Bytes GenConsts RstrDefs RstrProps.
+From NV Require Import Bytes GenConsts RstrDefs RstrProps RstrEngine5 RstrEngine6.
 Import ListNotations.
 Local Open Scope N_scope.
 
@@ -64,3 +64,62 @@ Example C12_nonvacuous :
      rstr_find rs ([97] ++ [10]) false true = Found 0 1) /\
   rstr_simple false [97; 124; 98] = None.
 Proof. vm_compute. repeat split; eexists; split; reflexivity. Qed.
+
+(* ------------------------------------------------------------------------------------------ *)
+(* SPEC = what the model of the general engine answers (RstrEngine.v .. RstrEngine6.v).
+   For every pattern the classifier accepts, ignore-case on or off, NOTBOL / NOTEOL, every
+   newline-terminated line and every depth limit d >= 1 (regex.c: NDEPT = 256) and group count
+   n >= 1: rset_make compiles "((" p "))" to a fork-free program, and rset_find answers set 0 with
+   group 0 = (i, i + |literal|) at the leftmost position i of the spec, groups >= 1 unset, no depth
+   cut; or -1 when the spec finds nothing.
+   Hypotheses that are needed and why: the line and the literal are valid UTF-8 without NUL
+   (chars cs, Forall scalar) -- regexec starts only at character boundaries (uc_len), \< \> step
+   back with uc_beg, and REG_ICASE compares decoded code points, whereas rstr.c and the spec work
+   on bytes; on malformed input the two really differ.  The line holds no newline but its last
+   byte; the pattern holds no newline. *)
+Theorem C12_equiv_engine : forall (ic : bool) p rs cs lcs (notbol noteol : bool) d n,
+  rstr_simple ic p = Some rs ->
+  ~ In 10 (UcSpec.chars cs) -> ~ In 10 p ->
+  Forall UcSpec.scalar cs -> r_str rs = UcSpec.chars lcs -> Forall UcSpec.scalar lcs ->
+  (1 <= d)%nat -> (1 <= n)%nat ->
+  exists r,
+    RsetDefs.rset_make [Some p] (if ic then RE_ICASE else 0%Z) = ReSyntax.Ok (Some r) /\
+    RsetDefs.rset_find_d d r (UcSpec.chars cs ++ [10]) n
+      (Z.lor (if notbol then RE_NOTBOL else 0%Z) (if noteol then RE_NOTEOL else 0%Z)) =
+    match spec_find (spat_of rs) ic notbol (UcSpec.chars cs) with
+    | Some i => (ReSyntax.Ok (0%Z, (Z.of_nat i, Z.of_nat (i + length (r_str rs))) :: repeat ((-1)%Z, (-1)%Z) (n - 1)), 0)
+    | None => (ReSyntax.Ok ((-1)%Z, []), 0)
+    end.
+Proof. exact equiv_engine. Qed.
+Print Assumptions C12_equiv_engine.
+
+(* the property itself, model against model: the fast path (rstr_find) and the general engine
+   (rset_find on the same pattern) report the same found / not-found, the same offsets, and groups
+   other than the whole match unset *)
+Theorem C12_fastpath_engine : forall (ic : bool) p rs cs lcs (notbol noteol : bool) d n,
+  rstr_simple ic p = Some rs ->
+  ~ In 10 (UcSpec.chars cs) -> ~ In 10 p ->
+  Forall UcSpec.scalar cs -> r_str rs = UcSpec.chars lcs -> Forall UcSpec.scalar lcs ->
+  (1 <= d)%nat -> (1 <= n)%nat ->
+  exists r,
+    RsetDefs.rset_make [Some p] (if ic then RE_ICASE else 0%Z) = ReSyntax.Ok (Some r) /\
+    RsetDefs.rset_find_d d r (UcSpec.chars cs ++ [10]) n
+      (Z.lor (if notbol then RE_NOTBOL else 0%Z) (if noteol then RE_NOTEOL else 0%Z)) =
+    match rstr_find rs (UcSpec.chars cs ++ [10]) notbol noteol with
+    | Found so eo => (ReSyntax.Ok (0%Z, rstr_groups n so eo), 0)
+    | NotFound => (ReSyntax.Ok ((-1)%Z, []), 0)
+    | OOB => (ReSyntax.OOB ReSyntax.SOther, 0)
+    end.
+Proof. exact fastpath_engine. Qed.
+Print Assumptions C12_fastpath_engine.
+
+(* non-vacuity of the engine side: \<a on "ba a" through rset_make / rset_find: set 0, (3,4), group 1
+   unset; ^\<ab\>$ with ignore-case on "Ab": (0,2); "é" (c3 a9) with ignore-case on "xé": (1,3) *)
+Example C12_engine_nonvacuous :
+  (exists r, RsetDefs.rset_make [Some [92; 60; 97]] 0%Z = ReSyntax.Ok (Some r) /\
+     RsetDefs.rset_find_d 256 r ([98; 97; 32; 97] ++ [10]) 2 0%Z = (ReSyntax.Ok (0%Z, [(3, 4); (-1, -1)]%Z), 0)) /\
+  (exists r, RsetDefs.rset_make [Some [94; 92; 60; 97; 98; 92; 62; 36]] RE_ICASE = ReSyntax.Ok (Some r) /\
+     RsetDefs.rset_find_d 256 r ([65; 98] ++ [10]) 1 0%Z = (ReSyntax.Ok (0%Z, [(0, 2)]%Z), 0)) /\
+  (exists r, RsetDefs.rset_make [Some [195; 169]] RE_ICASE = ReSyntax.Ok (Some r) /\
+     RsetDefs.rset_find_d 256 r ([120; 195; 169] ++ [10]) 1 0%Z = (ReSyntax.Ok (0%Z, [(1, 3)]%Z), 0)).
+Proof. repeat split; eexists; (split; [vm_compute; reflexivity|vm_compute; reflexivity]). Qed.
